@@ -407,6 +407,7 @@ int main(int argc, char** argv) {
     tf.push_back(fam::make_LX(lxbase, quick ? 3 : 4));
     tf.push_back(fam::make_LN());
     tf.push_back(fam::make_LU());
+    tf.push_back(fam::make_LD());
     tf.push_back(fam::make_LH(quick ? 18 : 20));
     tf.push_back(fam::make_LP());
   } else if (prop == "C03") {
@@ -421,6 +422,7 @@ int main(int argc, char** argv) {
     tf.push_back(fam::make_LX(lxbase, quick ? 3 : 4));
     tf.push_back(fam::make_LN());
     tf.push_back(fam::make_LU());
+    tf.push_back(fam::make_LD());
     tf.push_back(fam::make_LH(quick ? 18 : 20));
     tf.push_back(fam::make_LP());
   } else if (prop == "C02") {
@@ -514,6 +516,46 @@ int main(int argc, char** argv) {
       if (e.ok != r.ok) ctx.violation("static_init_phase", "parse_differs_during_static_initialisation", t, "Parse during static initialisation %s a text that the reference %s", e.ok ? "accepts" : "rejects", r.ok ? "accepts" : "rejects");
       return;
     }
+    if (f.name == "PU_user_buffer_fill") {
+      unsigned m = (unsigned)(idx % 50);
+      idx /= 50;
+      unsigned n = (unsigned)(idx % 232);
+      idx /= 232;
+      size_t size = (idx % 2) ? 1024 : 512;
+      unsigned k = (unsigned)(idx / 2);
+      std::string text = "[" + std::string(n, ' ');
+      for (unsigned i = 0; i < m; i++) text += i ? ",1" : "1";
+      text += "]";
+      ctx.eval();
+      ctx.nontriv();
+      std::string desc = "user buffer misaligned by " + std::to_string(k) + ", size " + std::to_string(size) + ", " + std::to_string(n) + " spaces, " + std::to_string(m) + " elements";
+      if (ctx.want_sample) ctx.sample(desc);
+      const size_t canary = HAVE_ASAN ? 0 : 32;
+      char* block = (char*)std::malloc(k + size + canary);
+      std::memset(block, 0xC3, k + size + canary);
+      ref::Result r = ref::parse(text);
+      {
+        ExactBuf in(text);
+        MemoryPoolAllocator<> alloc(block + k, size);
+        Document doc(&alloc);
+        doc.Parse(in.p, in.n);
+        if (doc.HasParseError() || !r.ok)
+          ctx.violation("user_buffer_outcome", "user_buffer_outcome", desc, "Parse over a user-buffer pool failed (code %d) on a valid text", (int)doc.GetParseError());
+        else {
+          std::string d = sc::compare(doc, r.v);
+          if (!d.empty()) ctx.violation("user_buffer_value", "user_buffer_value", desc, "%s", d.c_str());
+        }
+        for (size_t i = 0; i < k; i++)
+          if ((unsigned char)block[i] != 0xC3) ctx.violation("user_buffer_before", "user_buffer_written_before", desc, "byte %zu in front of the user buffer was overwritten", i);
+        for (size_t i = 0; i < canary; i++)
+          if ((unsigned char)block[k + size + i] != 0xC3) {
+            ctx.violation("user_buffer_behind", "user_buffer_written_behind", desc, "byte %zu behind the end of the user buffer was overwritten", i);
+            break;
+          }
+      }
+      std::free(block);
+      return;
+    }
     if (f.name == "H1_outcome_after_history") {
       const std::string& X = hs.S[idx / hs.S.size()];
       const std::string& Y = hs.S[idx % hs.S.size()];
@@ -596,8 +638,17 @@ int main(int argc, char** argv) {
   fph.chunk = 1;
   fph.rule = "7 texts (numbers of every path, escapes, whitespace, overflow, malformed, truncated) parsed and dumped from the constructor of a global defined above every library include, i.e. during static initialisation: same outcome, error code, offset and Dump() as the same call from main()";
   fams.push_back(fph);
+  // PU: a pool over a caller-supplied buffer (aligned or not), filled exactly: the input copy and the array of the
+  // text are sized by n spaces and m elements so that some (n, m) ends the last block in every one of the last bytes
+  vr::Family fpu;
+  fpu.name = "PU_user_buffer_fill";
+  fpu.count = 8ull * 2 * 232 * 50;
+  fpu.group = "PU";
+  fpu.chunk = 256;
+  fpu.rule = "Document over MemoryPoolAllocator(buffer + k, size) for every misalignment k in 0..7 and size in {512, 1024}, the buffer ending at the end of its heap block (ASan red zone / canary bytes behind it); text '[' + n spaces + m elements '1' + ']' for every n in 0..231 and m in 0..49, so that input copy + element array end at every offset around the end of the buffer: nothing outside the buffer is touched, value equal to the reference";
   if (prop == "C02") {
     fams.push_back(fpairs);
+    fams.push_back(fpu);
     if (!quick) fams.push_back(ftriples);
   }
   if (prop == "C03") fams.push_back(fhv);
